@@ -9,6 +9,9 @@ TERMS = [u'冬至', u'小寒', u'大寒', u'立春', u'雨水', u'惊蛰', u'春
 
 
 def run(ctx):
+    from rules import shared
+    ctx.include('solver_structure', shared.solver_structure)   # the day-level term / new-moon solvers fall back to the precise solver near civil midnight
+    ctx.include('jd_tables', shared.jd_tables)           # civil date <-> day number per (year, month) (shared, cached per source hash)
     p = ctx.prog
     I = ctx.interp(fuel=100000000)
     t = T(I)
